@@ -99,6 +99,19 @@ def _is_simple_arg(e):
     return isinstance(e, (ast.Name, ast.Constant, ast.Attribute)) or (isinstance(e, ast.Subscript) and _is_simple_arg(e.value) and isinstance(e.slice, (ast.Name, ast.Constant)))
 
 
+_COMPLEMENT = {ast.Is: ast.IsNot, ast.IsNot: ast.Is, ast.Eq: ast.NotEq, ast.NotEq: ast.Eq, ast.In: ast.NotIn, ast.NotIn: ast.In,
+               ast.Lt: ast.GtE, ast.GtE: ast.Lt, ast.Gt: ast.LtE, ast.LtE: ast.Gt}
+
+
+def _negate(test):
+    """``not test`` in its plainest spelling (``x is None`` -> ``x is not None``; ``not y`` -> ``y``)."""
+    if isinstance(test, ast.UnaryOp) and isinstance(test.op, ast.Not):
+        return test.operand
+    if isinstance(test, ast.Compare) and len(test.ops) == 1 and type(test.ops[0]) in (ast.Is, ast.IsNot, ast.Eq, ast.NotEq, ast.In, ast.NotIn):
+        return ast.copy_location(ast.Compare(left=test.left, ops=[_COMPLEMENT[type(test.ops[0])]()], comparators=test.comparators), test)
+    return ast.copy_location(ast.UnaryOp(op=ast.Not(), operand=test), test)
+
+
 def _bind(helper, call, receiver):
     """param name -> argument AST, or None if the call cannot be bound."""
     a = helper.args
@@ -672,6 +685,10 @@ class Normalizer:
 
         for i, b in enumerate(func.body):
             func.body[i] = T().visit(b)
+        # defaults are evaluated in the enclosing scope: the function's own locals do not shadow them
+        local = set()
+        func.args.defaults = [T().visit(d) for d in func.args.defaults]
+        func.args.kw_defaults = [T().visit(d) if d is not None else None for d in func.args.kw_defaults]
 
     # -------------------------------------------------------------- aliases
     def _pure(self, e):
@@ -689,7 +706,7 @@ class Normalizer:
             return  # no new local vocabulary: identity
         changed = True
         rounds = 0
-        while changed and rounds < 6:
+        while changed and rounds < 60:
             changed = False
             rounds += 1
             stores = {}
@@ -918,6 +935,39 @@ class Normalizer:
 
         counter = [0]
 
+        def decontinue(body):
+            """Body with leading-guard ``continue``s rewritten as conditionals; None if a ``continue`` sits elsewhere."""
+            out_ = []
+            for i, b in enumerate(body):
+                if isinstance(b, ast.If) and not b.orelse and len(b.body) == 1 and isinstance(b.body[0], ast.Continue):
+                    rest = decontinue(body[i + 1:])
+                    if rest is None:
+                        return None
+                    if rest:
+                        neg = _negate(b.test)
+                        out_.append(ast.copy_location(ast.If(test=neg, body=rest, orelse=[]), b))
+                    return out_
+                if any(isinstance(n, ast.Continue) for n in ast.walk(b)):
+                    return None
+                out_.append(b)
+            return out_
+
+        def fold_const_ifs(stmts):
+            """``if <constant>:`` left behind by the substitution of a row's values is resolved."""
+            res = []
+            for b in stmts:
+                for fld in ("body", "orelse"):
+                    blk = getattr(b, fld, None)
+                    if isinstance(blk, list) and blk and isinstance(blk[0], ast.stmt) and not isinstance(b, (ast.FunctionDef, ast.ClassDef)):
+                        setattr(b, fld, fold_const_ifs(blk))
+                if isinstance(b, ast.If) and isinstance(b.test, ast.Constant):
+                    res.extend(b.body if b.test.value else b.orelse)
+                elif isinstance(b, ast.If) and not b.body:
+                    continue
+                else:
+                    res.append(b)
+            return res
+
         def block(stmts):
             out = []
             for idx, st in enumerate(stmts):
@@ -935,9 +985,13 @@ class Normalizer:
                 if rows is None or not tnames or set(tnames) & pinned_locals:
                     out.append(st)
                     continue
-                if any(isinstance(n, (ast.Break, ast.Continue, ast.Return, ast.Yield, ast.YieldFrom)) for b in st.body for n in ast.walk(b)):
+                # ``if c: continue`` guards at the top of the body become ``if not c: <rest of the body>``
+                loop_body = decontinue(list(st.body))
+                if loop_body is None or any(isinstance(n, (ast.Break, ast.Continue, ast.Return, ast.Yield, ast.YieldFrom)) for b in loop_body for n in ast.walk(b)):
                     out.append(st)
                     continue
+                st = ast.copy_location(ast.For(target=st.target, iter=st.iter, body=loop_body, orelse=[]), st)
+                ast.fix_missing_locations(st)
                 body_stores = {n.id for b in st.body for n in ast.walk(b) if isinstance(n, ast.Name) and isinstance(n.ctx, (ast.Store, ast.Del))}
                 if body_stores & set(tnames):
                     out.append(st)
@@ -975,7 +1029,7 @@ class Normalizer:
                                 x.id = ren[x.id]
                         nb = _Subst(mapping).visit(nb)
                         nb = _Attr().visit(nb)
-                        copies.append(nb)
+                        copies.extend(fold_const_ifs([nb]))
                 if not ok:
                     out.append(st)
                     continue
@@ -1057,6 +1111,7 @@ class Normalizer:
                     n.body[i] = self._inline_expr_calls(b, cls_name)
             pinned_locals = set(self.pinned_funcs.get(q, [])) if q in self.pinned_funcs else set()
             if len(self.report["helpers"]) > n_helpers_before:
+                self._fold_constants(n)  # what came in with a helper may name module constants
                 self._renumber(n)  # line order = execution order, which the alias pass relies on
             if q in self.pinned_funcs:
                 self._propagate_aliases(n, pinned_locals)
